@@ -195,6 +195,54 @@ def main():
                 out["bad"].append({"operator": oname, "fault": "operator-reuse", "problems": probs, "site": {"oracle": "operator-history"}})
         except Exception as ex:
             out["bad"].append({"operator": oname, "fault": "operator-reuse", "problems": ["raised %r" % (ex,)], "site": {"oracle": "operator-history"}})
+    # ---- floating-point faults promoted to errors inside derivative rules: whether or not the rule fails, NumPy's error
+    #      state is what the user set, and later differentiations report the same faults ----
+    xs_fp = onp.array([0.1, 0.2, 0.4])
+    rules_fp = {"std": lambda v: anp.std(v), "var": lambda v: anp.var(v), "mean": lambda v: anp.mean(v), "prod": lambda v: anp.prod(v),
+                "linalg.norm": lambda v: anp.linalg.norm(v), "sum of squares": lambda v: anp.sum(v * v), "log": lambda v: anp.sum(anp.log(v)),
+                "sqrt": lambda v: anp.sum(anp.sqrt(v)), "divide": lambda v: anp.sum(1.0 / v), "power": lambda v: anp.sum(v ** 2.5),
+                "tanh": lambda v: anp.sum(anp.tanh(v)), "max": lambda v: anp.max(v), "sort": lambda v: anp.sum(anp.sort(v) * xs_fp),
+                "std axis": lambda v: anp.sum(anp.std(anp.outer(v, v), axis=1)), "logaddexp": lambda v: anp.sum(anp.logaddexp(v, 2.0 * v)),
+                "arctan2": lambda v: anp.sum(anp.arctan2(v, 1.0 + v)), "hypot-free norm": lambda v: anp.sqrt(anp.sum(v * v)),
+                "sinc": lambda v: anp.sum(anp.sinc(v)), "cumsum": lambda v: anp.sum(anp.cumsum(v) ** 2), "dot": lambda v: anp.dot(v, v)}
+
+    def fp_canary():
+        try:
+            r = grad(lambda v: anp.sum(anp.log(v + 1.0)))(onp.array([1.0, -1.0]))
+        except FloatingPointError:
+            return "raised"
+        return repr(onp.asarray(r).tolist())
+    old_err = onp.seterr(all="raise")
+    try:
+        want_state = dict(onp.geterr())
+        canary0 = fp_canary()
+        for rname, fr in rules_fp.items():
+            for cot in (1e308, -1e308, 1e-320, float("inf")):
+                out["n"] += 1
+                out["keys"].append("fp-fault|%s|%r" % (rname, cot))
+                try:
+                    vjp_, _v = make_vjp(fr)(xs_fp)
+                except FloatingPointError:
+                    continue
+                try:
+                    vjp_(cot)
+                    out["dist"]["fp-fault:no-fault"] = out["dist"].get("fp-fault:no-fault", 0) + 1
+                except FloatingPointError:
+                    out["dist"]["fp-fault:raised"] = out["dist"].get("fp-fault:raised", 0) + 1
+                except Exception:
+                    out["dist"]["fp-fault:other-exception"] = out["dist"].get("fp-fault:other-exception", 0) + 1
+                probs = []
+                if dict(onp.geterr()) != want_state:
+                    probs.append("NumPy's error state is %r after the call, the user had set %r" % (dict(onp.geterr()), want_state))
+                    onp.seterr(all="raise")
+                c1 = fp_canary()
+                if c1 != canary0:
+                    probs.append("a later differentiation that divides by zero gives %s, in a fresh process %s" % (c1, canary0))
+                if probs:
+                    out["bad"].append({"operator": "make_vjp of " + rname, "fault": "floating-point fault in a rule (cotangent %r)" % cot,
+                                       "problems": probs, "site": {"oracle": "operator-history"}})
+    finally:
+        onp.seterr(**old_err)
     repeat_outcomes("at the end, after every history above")
     # ---- a tracer that outlived its differentiation, used later as a plain constant ----
     for mode in ("rev", "fwd"):
